@@ -159,7 +159,7 @@ Section Rules.
     repeat match type of H with
            | context [if ?c then _ else _] => destruct c eqn:?
            | context [match ?c with _ => _ end] => destruct c eqn:?
-           end; inversion H; subst; split; reflexivity.
+           end; inversion H; subst; split; cbn; congruence.
   Qed.
 
   Lemma add_all_flags : forall lz segs buf b' ps rs,
@@ -217,14 +217,12 @@ Section Rules.
     - destruct (compress_ref (s_data r)) as [c m].
       rewrite add_all_app.
       match goal with |- context [add_all' ?lz ?b rest1] => destruct (add_all' lz b rest1) as [[[b1 p1] g1]| |] eqn:E1 end;
-        cbn [obnd fst]; try reflexivity.
+        cbn [obnd fst o_buf]; try reflexivity.
       destruct (add_all_flags _ _ _ _ _ _ E1) as [Hw _]. cbn [b_ref_written] in Hw.
       rewrite (Htail b1 (or_introl Hw)).
       destruct (add_all' (W_NO_RAW_GROUPS <=? g) b1 l2) as [[[b2 p2] g2]| |]; cbn [obnd seq3 seq_out o_buf o_ref_parts o_delta_parts o_regs]; try reflexivity.
-      rewrite <- app_assoc. reflexivity.
-    - rewrite add_all_app.
-      change (r :: rest1 ++ l2) with ((r :: rest1) ++ l2). rewrite add_all_app.
-      destruct (add_all' (W_NO_RAW_GROUPS <=? g) buf (r :: rest1)) as [[[b1 p1] g1]| |] eqn:E1; cbn [obnd fst]; try reflexivity.
+    - change (r :: rest1 ++ l2) with ((r :: rest1) ++ l2). rewrite add_all_app.
+      destruct (add_all' (W_NO_RAW_GROUPS <=? g) buf (r :: rest1)) as [[[b1 p1] g1]| |] eqn:E1; cbn [obnd fst o_buf]; try reflexivity.
       destruct (add_all_flags _ _ _ _ _ _ E1) as [Hw _].
       assert (Hc : (W_NO_RAW_GROUPS <=? g) && negb (b_ref_written b1) = false) by (rewrite Hw; exact Enew).
       rewrite (Htail b1 (or_intror Hc)).
@@ -269,8 +267,7 @@ Section Rules.
         destruct (b_reference (g_buf gs)) as [r|] eqn:Er.
         + destruct (Hrefd r eq_refl El) as [_ Hd]. specialize (Hd s1 id1 Hin1).
           destruct HC as [_ [_ Hlz]]. destruct (Hlz _ _ Hd) as [_ [_ Hn]]. exact Hn.
-        + assert (Hl : is_lz g = true) by (apply N.leb_le; exact El). rewrite Hl, Er in Href.
-          destruct Href as [_ [_ [Hc _]]]. rewrite Hc in Hin1. destruct Hin1.
+        + destruct Href as [_ [_ [Hc _]]]. rewrite Hc in Hin1. destruct Hin1.
       - apply N.leb_gt in El. change W_NO_RAW_GROUPS with 16 in El.
         destruct (b_reference (g_buf gs)); apply Hraw1; exact El.
     Qed.
@@ -294,7 +291,7 @@ Section Rules.
           - intros _ Hne. exfalso. apply Hne. cbn in HP. apply Permutation_nil. exact HP.
           - intros _. left. unfold view_of, finalize. rewrite Eg. reflexivity. }
       destruct (HG g gs Eg) as [packs [ents HI]].
-      destruct (fin_delta _ _ g gs packs ents HI) as [_ [Hfr _]].
+      destruct (fin_delta _ _ _ g gs packs ents HI) as [_ [Hfr _]].
       rewrite (view_final st g gs Eg). cbn [gv_ref]. rewrite Hfr.
       pose proof (inv_ref _ _ _ _ _ _ _ _ _ _ HI) as Href.
       split.
@@ -327,7 +324,7 @@ Section Rules.
       intros ops st g s id Hops Hrun E16 Hin. unfold regs_of, get_group in Hin.
       destruct (st g) as [gs|] eqn:Eg; [|destruct Hin].
       destruct (group_facts ops st g gs Hops Hrun Eg) as [packs [ents [HI [Hns [Hseg Hrefd]]]]].
-      destruct (fin_delta _ _ g gs packs ents HI) as [_ [Hfr _]].
+      destruct (fin_delta _ _ _ g gs packs ents HI) as [_ [Hfr _]].
       assert (Hl : is_lz g = true) by (apply N.leb_le; exact E16).
       pose proof (inv_ref _ _ _ _ _ _ _ _ _ _ HI) as Href. rewrite Hl in Href.
       pose proof (inv_regs _ _ _ _ _ _ _ _ _ _ HI) as Hregs. rewrite Forall_forall in Hregs.
@@ -394,13 +391,13 @@ Section Rules.
         length chunks = length dparts /\
         (forall i p c, nth_error dparts i = Some p -> nth_error chunks i = Some c ->
            load_part dwm p = Ok (flat_map (fun e => e ++ [CONTIG_SEPARATOR]) c) /\
-           (1 <= length c <= 50)%nat /\ (S i < length chunks -> length c = 50%nat) /\
+           (1 <= length c <= 50)%nat /\ ((S i < length chunks)%nat -> length c = 50%nat) /\
            forall e, In e c -> ~ In CONTIG_SEPARATOR e).
     Proof.
       intros ops st g dparts Hops Hrun Hv. unfold view_of, finalize in Hv.
       destruct (st g) as [gs|] eqn:Eg; [|discriminate]. cbn [gv_delta] in Hv. inversion Hv; subst dparts. clear Hv.
       destruct (group_facts ops st g gs Hops Hrun Eg) as [packs [ents [HI [Hns _]]]].
-      destruct (fin_delta _ _ g gs packs ents HI) as [Hfd _].
+      destruct (fin_delta _ _ _ g gs packs ents HI) as [Hfd _].
       exists (final_chunks (is_lz g) (g_buf gs) packs). rewrite Hfd. split; [rewrite map_length; reflexivity|].
       intros i p c Hp Hc. rewrite nth_error_map in Hp. rewrite Hc in Hp. cbn in Hp. inversion Hp; subst p. clear Hp.
       pose proof (final_chunks_shape _ _ _ _ _ _ _ _ _ _ HI c (nth_error_In _ _ Hc)) as [Hcn [Hle Hin]].
@@ -427,7 +424,7 @@ Section Rules.
       intros ops st g parts p Hops Hrun Hv Hin. unfold view_of, finalize in Hv.
       destruct (st g) as [gs|] eqn:Eg; [|destruct Hv; discriminate]. cbn [gv_ref gv_delta] in Hv.
       destruct (group_facts ops st g gs Hops Hrun Eg) as [packs [ents [HI [Hns [_ Hrefd]]]]].
-      destruct (fin_delta _ _ g gs packs ents HI) as [Hfd [Hfr _]].
+      destruct (fin_delta _ _ _ g gs packs ents HI) as [Hfd [Hfr _]].
       assert (Hsp : forall cm raw, dwm (removelast cm) (last cm 0) = Ok raw -> cm <> [] ->
                 exists raw0, load_part dwm (store_part cm raw) = Ok raw0 /\
                   (fst (store_part cm raw) = 0 <-> snd (store_part cm raw) = raw0) /\
